@@ -25,7 +25,7 @@ def _case(draw, worlds, all_boundaries):
             'style': draw(gens.style_strategy()),
             'hp': {'factor_update_steps': draw(gens.table_or_const([1, 1, 2, 3])), 'inv_update_steps': draw(gens.table_or_const([1, 2, 3, 4])),
                    'damping': draw(gens.table_or_const([0.01, 0.1, 1.0])), 'factor_decay': draw(gens.table_or_const([0.95, 0.5, 0.8])),
-                   'kl_clip': draw(gens.table_or_const([1e-3, 1e30, 1e-2])), 'lr': draw(gens.table_or_const([0.1, 1.0, 0.0]))},
+                   'kl_clip': draw(gens.table_or_const([1e-3, 1e30, 1e-2, None])), 'lr': draw(gens.table_or_const([0.1, 1.0, 0.0]))},
             'T': T, 'data_seed': draw(st.integers(0, 9999)),
             'cs': list(range(T + 1)) if all_boundaries else sorted(set(draw(st.lists(st.integers(0, T), min_size=1, max_size=2)))),
             'compute_inverses': draw(st.booleans()), 'include_factors': draw(st.sampled_from([True, True, True, False])),
